@@ -18,19 +18,27 @@ use crate::verif_common::*;
 use crate::verif_model::Arc;
 use crate::BinOperator;
 
-fn declare() {
+/// Declared shape, level by level (lib/patch.py `verif_gate`): which instruction kinds occur at
+/// nesting depth 0, 1, 2 and >= 3 of the scenario's tree (as built and as folded).  Operators are
+/// declared globally (the three binary and two prefix operators used in this file).
+fn levels(l0: u32, l1: u32, l2: u32, l3: u32) {
     use crate::instruction::verif_gate::*;
     allow_binops(b(crate::BinOperator::AssignAdd) | b(crate::BinOperator::GreaterOrEqual) | b(crate::BinOperator::Modulo));
     allow_unops(u(crate::unary_operator::UnaryOperator::Return) | u(crate::unary_operator::UnaryOperator::Indirection));
-    allow_mask((1 << K_VARIABLE) | (1 << K_BINOPERATION) | (1 << K_UNARYOPERATION) | (1 << K_BLOCK) | (1 << K_IFELSE) | (1 << K_MATCH) | (1 << K_SETIFELSE) | (1 << K_LOOP));
-}
-fn kinds(mask: u32) {
-    use crate::instruction::verif_gate::*;
-    declare();
+    allow_mask(u32::MAX);
     crate::variable::verif_valgate::allow_vals(0);
-    allow_mask((1 << K_VARIABLE) | mask);
+    allow_at(0, l0, u64::MAX);
+    allow_at(1, l1, u64::MAX);
+    allow_at(2, l2, u64::MAX);
+    allow_at(3, l3, u64::MAX);
 }
-use crate::instruction::verif_gate::{K_BINOPERATION, K_BLOCK, K_IFELSE, K_LOOP, K_MATCH, K_SETIFELSE, K_UNARYOPERATION};
+use crate::instruction::verif_gate::{K_BINOPERATION, K_BLOCK, K_IFELSE, K_LOOP, K_MATCH, K_SETIFELSE, K_UNARYOPERATION, K_VARIABLE};
+const V: u32 = 1 << K_VARIABLE;
+const BO: u32 = 1 << K_BINOPERATION;
+const UO: u32 = 1 << K_UNARYOPERATION;
+const BL: u32 = 1 << K_BLOCK;
+const IE: u32 = 1 << K_IFELSE;
+const LP: u32 = 1 << K_LOOP;
 fn iws(i: Instruction) -> InstructionWithStr {
     InstructionWithStr { instruction: i, str: "e".into() }
 }
@@ -68,7 +76,8 @@ fn the_match(scrutinee: Variable, x2: i64) -> Instruction {
 }
 /// kind of the scrutinee enumerated concretely (0 int, 1 float, 2 string, 3 array, 4 ()), value symbolic
 fn match_selects(kind: u8, fold: bool) {
-    kinds(1 << K_MATCH);
+    // a constant scrutinee lets the folding pass keep only the selected arm
+    levels((1 << K_MATCH) | if fold { V } else { 0 }, V, 0, 0);
     crate::variable::verif_valgate::allow_vals(1 << crate::variable::verif_valgate::V_ARRAY);
     crate::verif_model::set_order(0);
     let (x, x2): (i64, i64) = (kani::any(), kani::any());
@@ -108,7 +117,7 @@ match_harness!(match_void_folded, 4, true);
 /// a match accepted as exhaustive for a static type always has an arm for a value of that type:
 /// arms  a: [int] => 1 ; s: string|float => 2   against scrutinee types from the universe
 fn exhaustive(t: Ty) {
-    kinds(1 << K_MATCH);
+    levels(1 << K_MATCH, V, 0, 0);
     crate::variable::verif_valgate::allow_vals(1 << crate::variable::verif_valgate::V_ARRAY);
     crate::verif_model::set_order(0);
     let arms: Vec<MatchArm> = vec![
@@ -132,33 +141,27 @@ fn exhaustive(t: Ty) {
         }
     }
 }
-#[kani::proof]
-#[kani::unwind(5)]
-#[kani::stub(alloc::fmt::format, crate::verif_common::stub_format)]
-pub fn match_accepted_is_exhaustive() {
-    exhaustive(T_ARR_INT);
-    exhaustive(T_ARR_NEVER);
-    exhaustive(T_STR);
-    exhaustive(T_FLOAT);
-    exhaustive(T_INT);
-    kani::cover!(true);
+macro_rules! exhaustive_harness {
+    ($name:ident, $t:expr) => {
+        #[kani::proof]
+        #[kani::unwind(5)]
+        #[kani::stub(alloc::fmt::format, crate::verif_common::stub_format)]
+        pub fn $name() { exhaustive($t); kani::cover!(true); }
+    };
 }
-#[kani::proof]
-#[kani::unwind(5)]
-#[kani::stub(alloc::fmt::format, crate::verif_common::stub_format)]
-pub fn match_accepted_is_exhaustive_unions() {
-    // [int]|string-ish unions of the universe
-    crate::verif_model::set_order(0);
-    exhaustive(T_U_ARRS);
-    exhaustive(T_U_INT_ARR_INT);
-    exhaustive(T_ARR_U_INT_FLOAT);
-    kani::cover!(true);
-}
+exhaustive_harness!(match_accepted_is_exhaustive_arr_int, T_ARR_INT);
+exhaustive_harness!(match_accepted_is_exhaustive_arr_never, T_ARR_NEVER);
+exhaustive_harness!(match_accepted_is_exhaustive_str, T_STR);
+exhaustive_harness!(match_accepted_is_exhaustive_float, T_FLOAT);
+exhaustive_harness!(match_accepted_is_exhaustive_int, T_INT);
+exhaustive_harness!(match_accepted_is_exhaustive_u_arrs, T_U_ARRS);
+exhaustive_harness!(match_accepted_is_exhaustive_u_int_arr, T_U_INT_ARR_INT);
+exhaustive_harness!(match_accepted_is_exhaustive_arr_u, T_ARR_U_INT_FLOAT);
 
 // ---------------------------------------------------------------------------------------------
 /// if x: T = e   runs the body exactly when the runtime type of e matches T
 fn set_if_else(kind: u8, fold: bool) {
-    kinds(1 << K_SETIFELSE);
+    levels((1 << K_SETIFELSE) | if fold { V } else { 0 }, V, 0, 0);
     crate::variable::verif_valgate::allow_vals(1 << crate::variable::verif_valgate::V_ARRAY);
     crate::verif_model::set_order(0);
     let x: i64 = kani::any();
@@ -184,24 +187,28 @@ fn set_if_else(kind: u8, fold: bool) {
     let expect = match kind { 2 | 4 => 1, _ => 2 };
     assert!(is_int(&r, expect));
 }
-#[kani::proof]
-#[kani::unwind(5)]
-#[kani::stub(alloc::fmt::format, crate::verif_common::stub_format)]
-pub fn if_set_runs_body_iff_type_matches() {
-    set_if_else(0, false);
-    set_if_else(1, false);
-    set_if_else(2, false);
-    set_if_else(3, false);
-    set_if_else(4, true);
-    set_if_else(2, true);
-    kani::cover!(true);
+macro_rules! if_set_harness {
+    ($name:ident, $kind:expr, $fold:expr) => {
+        #[kani::proof]
+        #[kani::unwind(5)]
+        #[kani::stub(alloc::fmt::format, crate::verif_common::stub_format)]
+        pub fn $name() { set_if_else($kind, $fold); kani::cover!(true); }
+    };
 }
+if_set_harness!(if_set_int, 0, false);
+if_set_harness!(if_set_float, 1, false);
+if_set_harness!(if_set_arr_int, 2, false);
+if_set_harness!(if_set_arr_stored_as_union, 3, false);
+if_set_harness!(if_set_empty_folded, 4, true);
+if_set_harness!(if_set_arr_int_folded, 2, true);
 
 // ---------------------------------------------------------------------------------------------
 /// loop { cnt += 1; if cnt >= n { break } }  evaluates to () after exactly n iterations (n in 1..=3);
 /// also after the folding pass (a body of type `!` must not lose its loop)
 fn counted_loop(fold: bool, always_break: bool) {
-    kinds((1 << K_LOOP) | (1 << K_IFELSE) | (1 << K_BINOPERATION) | (1 << K_BLOCK));
+    // loop > if/else | block > comparison | `+=` > operands; the folding pass may keep the shape or
+    // simplify one level, so the folded variants declare the union of neighbouring levels
+    if always_break { levels(LP, BL, BO | V, V); } else { levels(LP, IE, BO | V, BO | V); }
     let n: i64 = kani::any();
     kani::assume(n >= 1 && n <= 3);
     let cnt = new_cell(Type::Int, Variable::Int(0));
@@ -230,14 +237,18 @@ pub fn loop_break_continue_folded() { counted_loop(true, false); kani::cover!(tr
 #[kani::proof]
 #[kani::unwind(5)]
 #[kani::stub(alloc::fmt::format, crate::verif_common::stub_format)]
-pub fn loop_body_of_type_never_folded() { counted_loop(true, true); counted_loop(false, true); kani::cover!(true); }
+pub fn loop_body_of_type_never_folded() { counted_loop(true, true); kani::cover!(true); }
+#[kani::proof]
+#[kani::unwind(5)]
+#[kani::stub(alloc::fmt::format, crate::verif_common::stub_format)]
+pub fn loop_body_of_type_never() { counted_loop(false, true); kani::cover!(true); }
 
 /// break leaves only the innermost loop:  loop { loop { break } ; outer += 1 ; if outer >= 2 { break } }
 #[kani::proof]
 #[kani::unwind(5)]
 #[kani::stub(alloc::fmt::format, crate::verif_common::stub_format)]
 pub fn break_affects_innermost_loop() {
-    kinds((1 << K_LOOP) | (1 << K_IFELSE) | (1 << K_BINOPERATION) | (1 << K_BLOCK));
+    levels(LP, BL, LP | IE, BO | V);
     let outer = new_cell(Type::Int, Variable::Int(0));
     let inner_loop: Instruction = Loop(iws(Instruction::Break)).into();
     let bump: Instruction = BinOperation { lhs: Instruction::Variable(Variable::Mut(outer.clone())), rhs: konst(1), op: BinOperator::AssignAdd }.into();
@@ -259,7 +270,7 @@ pub fn break_affects_innermost_loop() {
 #[kani::unwind(5)]
 #[kani::stub(alloc::fmt::format, crate::verif_common::stub_format)]
 pub fn block_value_and_error_propagation() {
-    kinds((1 << K_LOOP) | (1 << K_BLOCK) | (1 << K_BINOPERATION) | (1 << K_UNARYOPERATION));
+    levels(LP | BL | V, BO | V, UO | V, V);
     let (a, b): (i64, i64) = (kani::any(), kani::any());
     let blk: Instruction = Block { instructions: Arc::from(vec![iws(konst(a)), iws(konst(b))]) }.into();
     assert!(is_int(&run(&blk), b));
@@ -281,7 +292,7 @@ pub fn block_value_and_error_propagation() {
 #[kani::unwind(5)]
 #[kani::stub(alloc::fmt::format, crate::verif_common::stub_format)]
 pub fn return_leaves_innermost_function() {
-    kinds((1 << K_LOOP) | (1 << K_UNARYOPERATION));
+    levels(LP | V, UO, V, 0);
     let x: i64 = kani::any();
     let ret: Instruction = UnaryOperation { instruction: konst(x), op: UnaryOperator::Return }.into();
     // body: loop { return x }  ; 99
